@@ -111,7 +111,7 @@ for _model, _kind in KINDS:
                 ct = F.real("computation_time")
                 F.assume(R(ct) >= 0)
                 return F.new(Solution, ScenarioID(False, "DEU", "Muc", 2, 1, "T", 1), [mk_pps(F, self.model, self.kind, 7, "a_", self.ints)],
-                             datetime.datetime(2024, 5, 6, 7, 8, 9, 123456), ct, "Intel Xeon")
+                             datetime.datetime(2024, 5, 6, 7, 8, 9, 123456), ct, "Intel(R) Xeon(TM) CPU @ 2.10GHz")
 
 
 @register
@@ -121,7 +121,7 @@ class Cooperative(SolutionRoundTrip):
     describe = "several planning problems: listed in order; optional metadata absent stays absent"
 
     def solution(self, F):
-        return F.new(Solution, ScenarioID(True, "DEU", "Muc", 2, 1, "T", [1, 2]), [mk_pps(F, "PM", "PM", 7, "a_"), mk_pps(F, "KS", "KS", 8, "b_")],
+        return F.new(Solution, ScenarioID(True, "DEU", "Muc", 2, 1, "T", [1, 2]), [mk_pps(F, "PM", "PM", 8, "a_"), mk_pps(F, "KS", "KS", 7, "b_")],  # ids not ascending
                      datetime.datetime(2024, 5, 6, 7, 8, 9), None, None)
 
 
